@@ -1,5 +1,5 @@
 #!/bin/bash
 # Runs the thorough tier of the given checks one after the other; log: /tmp/scratch/thorough.log
 # (evidence/<id>.json is then the thorough run's; re-run lib/final_run.sh to restore quick-tier evidence).
-cd /verif
+cd /verif; mkdir -p /tmp/scratch
 for p in "$@"; do s=$(date +%s); out=$(timeout 7200 ./check $p --tier thorough 2>&1 | grep -E "^(OK|VIOLATION|KNOWN-FINDING)|problem" | cut -c1-220 | tr '\n' ' '); echo "[$(( $(date +%s) - s ))s] $p: $out (exit ${PIPESTATUS[0]})"; done >> /tmp/scratch/thorough.log 2>&1
